@@ -668,6 +668,60 @@ def _enum_members(ctx, mi, expr) -> Optional[Tuple[str, List[str]]]:
   return None
 
 
+def _r4_enum_round_trip(ctx, mi, ci, items) -> None:
+  """from_proto(to_proto(m)) == m for every member of the forward table: the reverse table expression and the two
+  lookup methods (found through base classes) are interpreted on the table, members standing for themselves."""
+  from vzstatic import pathcond
+  to_m, from_m = ctx.index.find_method(ci, 'to_proto'), ctx.index.find_method(ci, 'from_proto')
+  rev = ci.assigns.get('_proto_to_pyvizier')
+  if to_m is None or from_m is None or rev is None:
+    ctx.bad('R4', f'{ci.name}: enum round trip', ci.node, 'to_proto / from_proto / _proto_to_pyvizier not all present',
+            construct='enum-round-trip', func=ci.qualname)
+    return
+  fwd = {unparse(k, 0): unparse(v, 0) for k, v in items}
+  env: Dict[str, object] = {}
+  # enum members stand for their own spelling
+  for node in (to_m.node, from_m.node, rev):
+    for x in ast.walk(node):
+      if isinstance(x, ast.Attribute) and x.attr.isupper() and dotted(x):
+        env[unparse(x, 0)] = unparse(x, 0)
+  for k, v in fwd.items():
+    env[k], env[v] = k, v
+  helpers = {f.name: f.node for f in mi.functions.values()}
+  env['__callhook__'] = pathcond.method_hook(helpers)
+  for owner in ('cls', 'self', ci.name):
+    env[f'{owner}._pyvizier_to_proto'] = dict(fwd)
+  env['_pyvizier_to_proto'] = dict(fwd)
+  try:
+    revtab = pathcond.neval(rev, env)
+  except pathcond.NoValue as e:
+    raise AnalysisError(f'{ci.name}._proto_to_pyvizier: `{unparse(rev, 60)}` is outside the table model ({e})')
+  if not isinstance(revtab, dict):
+    raise AnalysisError(f'{ci.name}._proto_to_pyvizier does not evaluate to a table')
+  for owner in ('cls', 'self', ci.name):
+    env[f'{owner}._proto_to_pyvizier'] = dict(revtab)
+  wrong = []
+  for k in fwd:
+    try:
+      e1 = dict(env)
+      e1[to_m.params[-1]] = k
+      p_ = pathcond.run_concrete(to_m.node, e1, tolerant=True)
+      e2 = dict(env)
+      e2[from_m.params[-1]] = p_
+      back = pathcond.run_concrete(from_m.node, e2, tolerant=True)
+    except pathcond.Raised as e:
+      back = f'raise {e}'
+    except pathcond.LookupFailed as e:
+      back = f'KeyError at {e}'
+    except pathcond.NoValue as e:
+      raise AnalysisError(f'{ci.name}: to_proto/from_proto outside the table model ({e})')
+    if back != k:
+      wrong.append((k, back))
+  ctx.check(not wrong, 'R4', f'{ci.name}: from_proto(to_proto(m)) == m', rev,
+            f'{len(fwd)} members round-trip through the reverse table and both lookups',
+            f'members that do not come back: {wrong[:4]}', construct='enum-round-trip', func=ci.qualname)
+
+
 def r4_enums(ctx, schema: Schema, mi) -> None:
   n = 0
   for ci in mi.classes.values():
@@ -675,6 +729,9 @@ def r4_enums(ctx, schema: Schema, mi) -> None:
     if tab is None:
       continue
     items: List[Tuple[ast.AST, ast.AST]] = []
+    if isinstance(tab, ast.Dict) and not tab.keys and any(
+        ci in [b for b in ctx.index.bases(o) if isinstance(b, ClassInfo)] for o in mi.classes.values()):
+      continue  # empty placeholder of a shared base class: the subclasses provide the tables
     if isinstance(tab, ast.Dict):
       items = list(zip(tab.keys, tab.values))
     elif isinstance(tab, ast.Call) and dotted(tab.func) == 'dict' and tab.args and isinstance(tab.args[0], ast.List):
@@ -704,6 +761,7 @@ def r4_enums(ctx, schema: Schema, mi) -> None:
         probs.append(f'python members {missing} have no proto value (to_proto raises KeyError)')
     ctx.check(not probs, 'R4', f'{ci.name}._pyvizier_to_proto', tab,
               f'{len(items)} entries, injective and total', '; '.join(probs), construct='; '.join(probs), func=ci.qualname)
+    _r4_enum_round_trip(ctx, mi, ci, items)
   if n < 3:
     raise AnalysisError(f'only {n} enum tables found')
   # UNIFORM_DISCRETE exclusion is really guarded in the writer
